@@ -248,20 +248,40 @@ def run(ctx):
         ctx.check(bool(apps) and all(a.id in gd.reach([p]) and a.id not in gd.reach([gd.entry], blocked_nodes=[p]) for p in apps),
                   'Q3', 'the half-open count includes the new IKE_SA (registered before counting)', key=('Q3', 'count-includes-new'),
                   site=ctx.site(dm, a.ast))
-        conds = [c for c in gd.nodes if c.kind == 'cond' and compare_parts(c.ast) and compare_parts(c.ast)[1] is ast.Gt
-                 and src(compare_parts(c.ast)[2]) == 'self.cookie_threshold']
-        ok = False
-        for c in conds:
-            left = compare_parts(c.ast)[0]
-            ge = left.args[0] if isinstance(left, ast.Call) and callee_name(left) == 'sum' and len(left.args) == 1 else None
-            shape = isinstance(ge, ast.GeneratorExp) and isinstance(ge.elt, ast.Constant) and ge.elt.value == 1 \
-                and len(ge.generators) == 1 and src(ge.generators[0].iter) == 'self.ike_sas' and len(ge.generators[0].ifs) == 1
-            if shape:
-                var = src(ge.generators[0].target)
-                ev = ts_states.eval_cond(ge.generators[0].ifs[0])
-                shape = ev is not None and ev[0] == var + '.state' and ev[1] == frozenset(
-                    n for n, v in ts_states.members.items() if v < ts_states.members['ESTABLISHED'])
-            ok = ok or (common.dominated_by_edge(gd, a, c, 'T') and shape)
+        # the condition under which the store executes, as a value term: cookie_threshold < sum(1 for x in table if x.state < ESTABLISHED)
+        from .. import tq
+        from ..sval import strip_ids
+        DM = ctx.sval(dm)
+        st = [(t, v, pc) for t, v, pc, node, _ in DM.stores if node is a.ast]
+        ok = len(st) == 1
+        if ok:
+            pc = [x for x in st[0][2] if not ((x[0][0] == 'cmp' and x[0][1] == '==' and x[1] and 'exchange_type' in tq.text(x[0])
+                                               and 'IKE_SA_INIT' in tq.text(x[0])) or
+                                              (x[0][0] == 'attr' and x[0][2] == 'is_request' and x[1]))]
+            ok = len(pc) == 1 and pc[0][1] is True and pc[0][0][0] == 'cmp' and pc[0][0][1] == '<' \
+                and pc[0][0][2] == ('attr', ('param', 'self'), 'cookie_threshold') and tq.is_call(pc[0][0][3], 'builtins.sum')
+            cnt = strip_ids(tq.args(pc[0][0][3]).get('#0', ('undef',))) if ok else None
+            table = ('attr', ('param', 'self'), 'ike_sas')
+            ok = ok and cnt[0] == 'list' and len(cnt[1]) == 1 and cnt[1][0][0] == 'each' and cnt[1][0][2] == table \
+                and cnt[1][0][4] == ('const', 'int', 1) and len(cnt[1][0][3]) == 1
+            if ok:
+                filt, pol = cnt[1][0][3][0]
+                below = set()
+                for name, val in ts_states.members.items():
+                    def leaf(t, val=val):
+                        if t == ('attr', ('elem', table, 0), 'state'):
+                            return val
+                        if t[0] == 'global':
+                            v = DM.value_of(t)
+                            if isinstance(v, int):
+                                return v
+                        raise tq.NoValue()
+                    try:
+                        if bool(tq.teval(filt, leaf)) == pol:
+                            below.add(name)
+                    except (tq.NoValue, Exception):
+                        ok = False
+                ok = ok and below == set(n for n, v in ts_states.members.items() if v < ts_states.members['ESTABLISHED'])
         ctx.check(ok, 'Q3', 'the secret is armed iff the number of table entries below ESTABLISHED exceeds cookie_threshold',
                   key=('Q3', 'threshold'), site=ctx.site(dm, a.ast))
     ci = ctx.func('ikesacontroller.IkeSaController.__init__')
